@@ -76,7 +76,7 @@ def run_csv(w, d, coin, start, end, trace=None, h0=0, nofile=None, threads=None,
     s = (h0 + start) if (h0 or start) else None
     e = None if end in (None, -1) else h0 + end
     dump = w.mk('out') if cb in ('csvdump', 'unspentcsvdump', 'balances') else None
-    return run.run_parser(d.path, cb, dump=dump, coin=coin, start=s, end=e, trace=trace, skip='spend,create,eval',
+    return run.run_parser(d.path, cb, dump=dump, coin=coin, start=s, end=e, trace=trace, skip='spend,create,eval,dump_row,bal_row',
                           nofile=nofile, threads=threads)
 
 
